@@ -79,6 +79,10 @@ let ranges (v : int list) : string =
   done;
   String.concat "," (List.rev !out)
 
+let split_b = ref 0
+let split_i = ref 0
+let split_ctx : sctx option ref = ref None
+
 let tomb_pages = ref 1
 let tomb_dev : tomb list ref = ref []
 let tomb_next = ref 1
@@ -153,6 +157,24 @@ let () =
                      Printf.sprintf "ok=1 infos=1 off=%d len=%d klen=%d vlen=%d hdr=%s"
                        (int_of_n i.b_offset) (int_of_n i.b_len) (List.length kenc) mvlen (hex hdr)
                    end)
+          | "splitnew" ->
+              split_b := geti kv "B"; split_i := geti kv "I";
+              split_ctx := Some (init_ctx (n_of_int !split_i)); "ok"
+          | "split" ->
+              let lens = List.map int_of_string (List.filter (fun x -> x <> "") (split_on ',' (gets kv "lens"))) in
+              let seq0 = int_of_string (gets_d kv "seq0" "1") in
+              let es = List.mapi (fun i l -> { e_hash = n_of_int (1000 + seq0 + i); e_seq = n_of_int (seq0 + i); e_len = n_of_int l }) lens in
+              (match !split_ctx with
+               | None -> "PANIC"
+               | Some c ->
+                   (match split (n_of_int !split_b) (n_of_int !split_i) c es with
+                    | None -> "PANIC"
+                    | Some ((c', ps), nb) ->
+                        split_ctx := Some c';
+                        let ps' = List.map (fun p ->
+                            Printf.sprintf "%d:%d:%d:%d:%d:[%s]" (int_of_n p.p_blk) (int_of_n p.p_bbo) (int_of_n p.p_pbo) (int_of_n p.p_size) (int_of_n p.p_cnt)
+                              (String.concat "/" (List.map (fun i -> Printf.sprintf "%d.%d.%d.%d" (int_of_n i.i_hash) (int_of_n i.i_seq) (int_of_n i.i_off) (int_of_n i.i_len)) p.p_inds))) ps in
+                        Printf.sprintf "blocks=%d parts=%s" (int_of_n nb) (String.concat ";" ps')))
           | "tombnew" ->
               tomb_pages := geti kv "pages"; tomb_next := 1;
               tomb_bug := (gets_d kv "bug_tail" "0" = "1");
